@@ -592,8 +592,15 @@ impl ConnectionPool {
                         },
                     }),
                     validated: Arc::new(AtomicBool::new(false)),
-                    paused: Arc::new(AtomicBool::new(false)),
-                    paused_waiter: Arc::new(Notify::new()),
+                    // A re-created pool stays paused and keeps its waiters.
+                    paused: match get_pool(pool_name, &user.username) {
+                        Some(old_pool) => old_pool.paused.clone(),
+                        None => Arc::new(AtomicBool::new(false)),
+                    },
+                    paused_waiter: match get_pool(pool_name, &user.username) {
+                        Some(old_pool) => old_pool.paused_waiter.clone(),
+                        None => Arc::new(Notify::new()),
+                    },
                     prepared_statement_cache: match pool_config.prepared_statements_cache_size {
                         0 => None,
                         _ => Some(Arc::new(Mutex::new(PreparedStatementCache::new(
